@@ -18,6 +18,7 @@ CONTENTS = {
     "hashes": "# heading\n### not a section\n\n",
     "empty": "",
     "percent": "let f () =\n  frt.Printf1 \"%d%% of %s\\n\" 1\n",
+    "crlf": "package main\r\n\r\nlet s = `x\r\ny`\r\nlet t = \"lone\rcr\"\n",
 }
 OLD = {"long": "OLD README LINE\n" * 400}
 
@@ -48,7 +49,7 @@ def parse_sections(text, pos):
 def read_readme(path, old):
     if not os.path.exists(path):
         return ["absent"]
-    text = open(path, encoding="utf8", errors="replace").read()
+    text = open(path, encoding="utf8", errors="replace", newline="").read()        # (no newline translation: bytes are bytes)
     if old != "absent" and text == OLD[old]:
         return ["old", old]
     m = HEAD.match(text)
@@ -73,7 +74,7 @@ def stage_and_run(ctx, tool, k, sc):
     d = os.path.join(ctx.mkdir("c18"), "s%d" % k)
     os.makedirs(d)
     for f, cid in sc["fs"].items():
-        with open(os.path.join(d, f), "w") as fh:
+        with open(os.path.join(d, f), "w", newline="") as fh:
             fh.write(CONTENTS[cid])
     if any(l["file"] == "dir.fo" for l in sc["lines"]):
         os.makedirs(os.path.join(d, "dir.fo"))          # a listed entry that exists but cannot be read as a file
@@ -82,6 +83,21 @@ def stage_and_run(ctx, tool, k, sc):
     if sc["old"] != "absent":
         with open(os.path.join(d, "README.md"), "w") as fh:
             fh.write(OLD[sc["old"]])
+        if k % 2 == 1:
+            # every other scenario with a README already present: the stale README has exactly the SIZE of the one to be written (what an
+            # earlier run over a slightly different list or sample leaves behind) - produced by a first run in a twin directory
+            d2 = d + "_first"
+            shutil.copytree(d, d2)
+            os.remove(os.path.join(d2, "README.md"))
+            rc1, _, _ = core.sh([tool, os.path.join(d2, "filelist.txt")], cwd=ctx.scratch, timeout=60)
+            r1 = os.path.join(d2, "README.md")
+            if rc1 == 0 and os.path.exists(r1):
+                data = open(r1, "rb").read()
+                stale = bytes((b ^ 1) if (65 <= b <= 90 or 97 <= b <= 122) else b for b in data)       # same length, other letters
+                if stale != data:
+                    with open(os.path.join(d, "README.md"), "wb") as fh:
+                        fh.write(stale)
+            shutil.rmtree(d2, ignore_errors=True)
     rc, so, se = core.sh([tool, os.path.join(d, "filelist.txt")], cwd=ctx.scratch, timeout=60)
     procs = [l[len("process: "):] for l in so.splitlines() if l.startswith("process: ")]
     readme = read_readme(os.path.join(d, "README.md"), sc["old"])
@@ -115,8 +131,8 @@ def run_scenarios(ctx, scs):
 def run(ctx):
     ctx.rule = ("scenarios enumerated by TLC (FoSampleMdMC.tla): list files with 0..N entries over 6 file names (bases ending in f / o / ., a "
                 "name without .fo, a name with %, a missing file, a directory) x titles (none, one word, several words with double spaces, leading space, empty after "
-                "the space, with % directives, with markdown / brace / backtick characters) x blank-line placement x final newline x a pre-existing longer README.md; file contents: ordinary source, no "
-                "trailing newline, containing ``` fences, containing # lines, empty. Each scenario is one run of the real tool in a staged "
+                "the space, with % directives, with markdown / brace / backtick characters) x blank-line placement x final newline x a pre-existing README.md (longer, or stale with exactly the size of the new one); file contents: ordinary source, no "
+                "trailing newline, containing ``` fences, containing # lines, empty, with CR LF line ends and a lone CR. Each scenario is one run of the real tool in a staged "
                 "directory. distinct = distinct scenarios; non-trivial = >= 1 entry")
     sd = ctx.spec_dir()
     n = 3 if ctx.tier == "thorough" else 2
